@@ -115,7 +115,18 @@ IsRNEQ(f, x, Q) ==
        /\ IF IsInf(f, x) THEN QLe(lo, Qa)
           ELSE /\ (QLt(lo, Qa) \/ (ev /\ QEq(lo, Qa)))
                /\ (QLt(Qa, hi) \/ (ev /\ QEq(Qa, hi)))
-IsRNED(f, x, d) == IsRNEQ(f, x, QFromD(d))
+\* the same for a dyadic, entirely in dyadic arithmetic (midpoints of neighbours are dyadic): no big multiplications
+IsRNED(f, x, d) ==
+    LET g   == Mag(f, x)
+        da  == DAbs(d)
+        v   == MagVal(f, g)
+        hi  == DMul2k(DAdd(v, MagVal(f, NAdd(g, <<1>>))), -1)
+        lo  == IF NIsZero(g) THEN DNeg(DMul2k(MagVal(f, <<1>>), -1)) ELSE DMul2k(DAdd(v, MagVal(f, NSub(g, <<1>>))), -1)
+        ev  == NIsEven(g)
+    IN /\ (DIsZero(d) \/ NIsZero(g) \/ d.neg = (x.s = 1))
+       /\ IF IsInf(f, x) THEN DLe(lo, da)
+          ELSE /\ (DLt(lo, da) \/ (ev /\ DEq(lo, da)))
+               /\ (DLt(da, hi) \/ (ev /\ DEq(da, hi)))
 \* faithful rounding: x is one of the two patterns bracketing Q (or exact)
 IsFaithfulQ(f, x, Q) ==
     LET g   == Mag(f, x)
